@@ -1,4 +1,5 @@
 """C06 / C07: the hand-written streaming readers against spec/NtReader.tla and spec/TtlReader.tla."""
+import os
 import itertools
 import random
 from harness import common, tlc, runner
@@ -122,6 +123,79 @@ def judge_nt(out, stmts, label):
     out.notes["drift_vs_transliteration"] = out.notes.get("drift_vs_transliteration", 0) + drift
 
 
+EOLS = {"LF": "\n", "CRLF": "\r\n", "CR": "\r"}
+
+
+def _read_nt_doc(payload):
+    """a document of several statements, one per line, through the raw-string / plain file / gz / xz carriers"""
+    import gzip
+    import lzma
+    import shutil
+    import tempfile
+    from shexer.io.graph.yielder.nt_triples_yielder import NtTriplesYielder
+    text = "".join(nt_line(x) + EOLS[payload["eol"]] for x in payload["xs"])
+    d = tempfile.mkdtemp(prefix="shexer-verif-ntdoc-")
+    try:
+        ch = payload["channel"]
+        if ch == "raw":
+            kw = {"raw_graph": text}
+        else:
+            path = os.path.join(d, "doc.nt" + {"file": "", "gz": ".gz", "xz": ".xz"}[ch])
+            data = text.encode("utf8")
+            if ch == "file":
+                with open(path, "wb") as fh:
+                    fh.write(data)
+            elif ch == "gz":
+                with gzip.open(path, "wb") as fh:
+                    fh.write(data)
+            else:
+                with lzma.open(path, "wb") as fh:
+                    fh.write(data)
+            kw = {"source_file": path}
+            if ch != "file":
+                kw["compression_mode"] = ch
+
+        def go():
+            y = NtTriplesYielder(**kw)
+            return [[_term(s), str(p), _term(o)] for s, p, o in y.yield_triples()], y.error_triples
+        st, val, exc, frame = runner.call_guarded(go, timeout=5)
+    finally:
+        shutil.rmtree(d, ignore_errors=True)
+    res = {"id": payload["id"], "xs": payload["xs"], "eol": payload["eol"], "channel": payload["channel"], "status": st, "exc": exc,
+           "frame": frame, "triples": [], "errors": 0}
+    if st == "ok":
+        res["triples"], res["errors"] = val
+    return res
+
+
+def judge_nt_docs(out, rnd, n):
+    docs = []
+    for i in range(n):
+        xs = [s["x"] for s in random_nt_statements(rnd, rnd.randint(2, 5), max_len=5)]
+        for x in xs:
+            x["comment"] = False
+        docs.append({"id": "ntd%d" % i, "xs": xs, "eol": rnd.choice(sorted(EOLS)), "channel": rnd.choice(["raw", "file", "gz", "xz"])})
+    results = runner.run_many(_read_nt_doc, docs, chunk=25)
+    for r in results:
+        if r.get("status") == "harness-error":
+            raise common.Machinery("harness error: %s\n%s" % (r.get("exc"), r.get("trace", "")))
+    traces = [{"id": r["id"], "xs": r["xs"], "eol": r["eol"], "status": r["status"], "triples": r["triples"], "errors": r["errors"]} for r in results]
+    verdicts, stats = tlc.validate_batch("Trace_NtDoc", "Trace_NtDoc.cfg", traces, procs=8)
+    out.traces += len(traces)
+    out.evaluations += len(traces)
+    chans = {}
+    for r in results:
+        v = verdicts[r["id"]]
+        key = "%s/%s" % (r["channel"], r["eol"])
+        chans[key] = chans.get(key, 0) + 1
+        if any(c.startswith("MACHINERY") for c in v["clauses"]):
+            raise common.Machinery("C06 document %s: %s" % (r["id"], v["clauses"]))
+        out.judge_clauses(v["clauses"], {"kind": "ntdoc", "xs": r["xs"], "eol": r["eol"], "channel": r["channel"]}, lambda c: True,
+                          detail="document of %d statements, line end %s, carrier %s: yielded %d, errors %d %s"
+                                 % (len(r["xs"]), r["eol"], r["channel"], len(r["triples"]), r["errors"], r["exc"]))
+    out.notes["documents_by_carrier_and_line_end"] = chans
+
+
 def check_c06(out, tier):
     rnd = random.Random(common.seed() + 6)
     for cfg in (["MC_C06_quick.cfg"] if tier == "quick" else ["MC_C06_mid.cfg", "MC_C06_thorough.cfg"]):
@@ -137,11 +211,12 @@ def check_c06(out, tier):
         judge_nt(out, nt_statements(2, "all"), "exhaustive L<=2, all layouts")
         judge_nt(out, nt_statements(3, "core"), "exhaustive L<=3, core layout")
         judge_nt(out, random_nt_statements(rnd, 20000), "random L<=12")
+    judge_nt_docs(out, rnd, 240 if tier == "quick" else 3000)
     return ("single-line N-Triples statements: subject in {2 IRIs with '#','@','_',':' ; blank node} x object in {IRI, blank "
             "node, literal whose content is a word over the 16-symbol adversarial alphabet (escaped quote, escaped backslash, "
             "'@', '^^', '#', ' .', '<', '>', 'xsd:', 'geo:', digit, '_', non-ASCII, \\uXXXX, '%', 'a')} x suffix {none, @en, "
             "@en-GB, ^^<iri>} x separator {blank, tab, two blanks} x glued final dot x trailing comment; non-trivial = literal "
-            "with non-empty content")
+            "with non-empty content; plus documents of 2-5 such statements with line ends LF / CR LF / CR through the raw-string, file, gz and xz carriers")
 
 
 def replay(prop, d):
@@ -149,6 +224,12 @@ def replay(prop, d):
     case = d["case"]
     if case.get("kind") == "nt":
         judge_nt(out, [{"id": "replay", "x": case["x"]}], "replay")
+    elif case.get("kind") == "ntdoc":
+        r = _read_nt_doc({"id": "replay", "xs": case["xs"], "eol": case["eol"], "channel": case["channel"]})
+        t = {"id": "replay", "xs": r["xs"], "eol": r["eol"], "status": r["status"], "triples": r["triples"], "errors": r["errors"]}
+        verdicts, _st = tlc.validate_batch("Trace_NtDoc", "Trace_NtDoc.cfg", [t], procs=1)
+        out.traces += 1
+        out.judge_clauses(verdicts["replay"]["clauses"], case, lambda c: True, detail="replay")
     elif case.get("kind") == "ttl":
         judge_ttl(out, [{"id": "replay", "doc": case["doc"]}], "replay")
     return common.finish(out, rule="replay")
